@@ -99,9 +99,10 @@ Speed2(s)       == s.vx * s.vx + s.vy * s.vy
 Theta(s)        == IF s.kind = "pm" THEN Heading(s.vx, s.vy) ELSE s.th
 
 (* ------------------------------ satisfaction ----------------------------------- *)
-(* fz = TRUE: the goal was turned by a quarter turn q*pi/2 (q # 0) inside the library: its corner / centre / end-point *)
+(* fz is a set of attributes whose floats carry noise.  {"pos", "ori"}: the goal was turned by a quarter turn q*pi/2 (q # 0) inside the library: its corner / centre / end-point *)
 (* floats carry rounding noise (cos(pi/2) = 6e-17), so pure boundary contact and every interval end point is a band;   *)
-(* interior and exterior points must still be decided.  fz = FALSE: everything is exact (see module header).            *)
+(* interior and exterior points must still be decided.  fz = {}: everything is exact (see module header).               *)
+(* {"ori"} alone: the goal went through a file (the angle end points were printed and parsed).                          *)
 InRectOpen(r, p) == r[1] < p[1] /\ p[1] < r[3] /\ r[2] < p[2] /\ p[2] < r[4]
 Dist2(c, p) == (p[1] - c[1]) * (p[1] - c[1]) + (p[2] - c[2]) * (p[2] - c[2])
 RECURSIVE RegionFz(_, _)
@@ -118,15 +119,15 @@ SatVel(c, s) == IF s.kind = "pm"
 SatF(a, g, s, fz) == LET c == Con(g, a) IN
                 IF c.k = "none" THEN "T"
                 ELSE CASE a = "time"        -> B3(c.lo <= s.t /\ s.t <= c.hi)
-                       [] a = "position"    -> IF fz THEN RegionFz(c, s.p) ELSE B3(InRegion(c, s.p))
-                       [] a = "orientation" -> IF fz THEN (IF OnEnd(c.a, c.b, Theta(s)) THEN "EITHER" ELSE B3(AngleIn(c.a, c.b, Theta(s))))
+                       [] a = "position"    -> IF "pos" \in fz THEN RegionFz(c, s.p) ELSE B3(InRegion(c, s.p))
+                       [] a = "orientation" -> IF "ori" \in fz THEN (IF OnEnd(c.a, c.b, Theta(s)) THEN "EITHER" ELSE B3(AngleIn(c.a, c.b, Theta(s))))
                                                ELSE SatAngle(c.a, c.b, Theta(s))
                        [] a = "velocity"    -> SatVel(c, s)
-Sat(a, g, s)           == SatF(a, g, s, FALSE)
+Sat(a, g, s)           == SatF(a, g, s, {})
 SatGSF(g, s, fz)       == All3({SatF(a, g, s, fz) : a \in Attrs})
 ReachedF(goal, s, fz)  == Any3({SatGSF(goal[i], s, fz) : i \in DOMAIN goal})
-SatGS(g, s)            == SatGSF(g, s, FALSE)
-Reached(goal, s)       == ReachedF(goal, s, FALSE)
+SatGS(g, s)            == SatGSF(g, s, {})
+Reached(goal, s)       == ReachedF(goal, s, {})
 (* the same with attribute m declared undecided: used only to NAME the attribute that decides a wrong verdict *)
 SatGSM(g, s, m)      == All3({IF a = m /\ Con(g, a).k # "none" THEN "EITHER" ELSE Sat(a, g, s) : a \in Attrs})
 ReachedM(goal, s, m) == Any3({SatGSM(goal[i], s, m) : i \in DOMAIN goal})
@@ -137,8 +138,8 @@ Decider(goal, s) == LET D == Deciders(goal, s)  D2 == D \ {"time"} IN     \* tie
 
 GoalReachedVF(goal, traj, fz) == Any3({ReachedF(goal, traj[i], fz) : i \in DOMAIN traj})
 IndexOkF(goal, traj, idx, fz) == idx \in 0..Len(traj) - 1 /\ ReachedF(goal, traj[idx + 1], fz) # "F"
-GoalReachedV(goal, traj)  == GoalReachedVF(goal, traj, FALSE)
-IndexOk(goal, traj, idx)  == IndexOkF(goal, traj, idx, FALSE)                                     \* 0-based index of a reaching state
+GoalReachedV(goal, traj)  == GoalReachedVF(goal, traj, {})
+IndexOk(goal, traj, idx)  == IndexOkF(goal, traj, idx, {})                                     \* 0-based index of a reaching state
 
 (* ------------------------------ lattice rigid motions (translate_rotate) -------- *)
 (* m = [t |-> <<TX, TY>> (doubled), q |-> quarter turns]:  p |-> R^q (p + t), "first translate, then rotate about the   *)
@@ -162,10 +163,28 @@ MoveGoal(goal, m) == [i \in DOMAIN goal |-> MoveGS(m, goal[i])]
 MoveState(s, m) == IF s.kind = "pm" THEN LET v == RotQ(m.q, <<s.vx, s.vy>>) IN PM(s.t, Move(m, s.p), v[1], v[2])
                    ELSE [s EXCEPT !.p = Move(m, s.p), !.th = IF s.thint = 1 THEN @ ELSE @ + 6 * (m.q % 4)]
 Fz(m) == m.q % 4 # 0
-MovedReached(goal, m, s)        == ReachedF(MoveGoal(goal, m), s, Fz(m))       \* expected verdict after goal.translate_rotate(m)
-MovedGoalReachedV(goal, m, tr)  == GoalReachedVF(MoveGoal(goal, m), tr, Fz(m))
-MovedIndexOk(goal, m, tr, idx)  == IndexOkF(MoveGoal(goal, m), tr, idx, Fz(m))
+FzOf(m) == IF Fz(m) THEN {"pos", "ori"} ELSE {}
+MovedReached(goal, m, s)        == ReachedF(MoveGoal(goal, m), s, FzOf(m))       \* expected verdict after goal.translate_rotate(m)
+MovedGoalReachedV(goal, m, tr)  == GoalReachedVF(MoveGoal(goal, m), tr, FzOf(m))
+MovedIndexOk(goal, m, tr, idx)  == IndexOkF(MoveGoal(goal, m), tr, idx, FzOf(m))
 AdmMove(m) == m.q \in -3..3
+
+(* ------------------------------ goal read from a file, scenario / planning problems moved --------------------------- *)
+(* hist = sequence of "scn" (Scenario.translate_rotate(m): the road network moves, the goal must NOT) and "pps"            *)
+(* (PlanningProblemSet.translate_rotate(m): the goal moves).  The goal ends up moved once per "pps" step, in any order.   *)
+RECURSIVE GoalAfter(_, _, _)
+GoalAfter(goal, m, hist) == IF hist = <<>> THEN goal
+                            ELSE GoalAfter(IF Head(hist) = "pps" THEN MoveGoal(goal, m) ELSE goal, m, Tail(hist))
+Turned(m, hist)  == Fz(m) /\ \E i \in DOMAIN hist : hist[i] = "pps"
+FileFz(m, hist)  == {"ori"} \cup (IF Turned(m, hist) THEN {"pos"} ELSE {})       \* positions are half-integers: exact in both formats
+FileReached(goal, m, hist, s)            == ReachedF(GoalAfter(goal, m, hist), s, FileFz(m, hist))
+FileGoalReachedV(goal, m, hist, tr)      == GoalReachedVF(GoalAfter(goal, m, hist), tr, FileFz(m, hist))
+FileIndexOk(goal, m, hist, tr, idx)      == IndexOkF(GoalAfter(goal, m, hist), tr, idx, FileFz(m, hist))
+AdmHist(hist) == \A i \in DOMAIN hist : hist[i] \in {"scn", "pps"}
+LawFileOrder(goal, m) == /\ GoalAfter(goal, m, <<"scn">>) = goal /\ GoalAfter(goal, m, <<"scn", "scn">>) = goal
+                         /\ GoalAfter(goal, m, <<"scn", "pps">>) = MoveGoal(goal, m)
+                         /\ GoalAfter(goal, m, <<"pps", "scn">>) = MoveGoal(goal, m)
+                         /\ GoalAfter(goal, m, <<"pps">>) = MoveGoal(goal, m)
 
 (* ------------------------------ admissible inputs (statement's quantifier) ------ *)
 AdmIv(c)  == c.k = "none" \/ (c.k = "iv" /\ c.lo <= c.hi)
